@@ -329,6 +329,33 @@ def rhs_job(interp, c, case):
                 info={"sig": "deterministic run writes the model", "what": "model written"})
 
 
+def interface_reuse_job(interp, c, case):
+    """one interface object prepared (and used) for several deterministic runs: the derivative it reports for a state is the same every
+    time - preparing again replaces the interface's stoichiometry tables, it does not add to them"""
+    safe, = case
+    T = interp.load("bioscrape.types")
+    S = interp.load("bioscrape.simulator")
+    k = c.real("k1", lo=0)
+    args = _args()
+    args["parameters"] = [("k1", k), ("tau", 0.25)]
+    M = T.ns["Model"](**args)
+    itf = S.ns["SafeModelCSimInterface" if safe else "ModelCSimInterface"](M)
+    st = {s_: c.real("x_" + s_, lo=0, lo_strict=True) for s_ in ("A", "B", "C")}
+    order = M.get_species_list()
+    outs = []
+    for rep in range(3):
+        itf.py_prep_deterministic_simulation()
+        x = np.array([st[s_] for s_ in order], dtype=object)
+        dx = np.array([c.real("junk%d_%d" % (rep, i)) for i in range(3)], dtype=object)
+        itf.py_calculate_deterministic_derivative(x, dx, 0)
+        outs.append(list(dx))
+    ok = c.prove(s_and(*[outs[r][i] == outs[0][i] for r in (1, 2) for i in range(3)]),
+                 "%s interface prepared for a deterministic run three times: the derivative at a state is the same each time" % ("safe" if safe else "plain"),
+                 info={"sig": "interface reuse changes the deterministic derivative", "what": "derivative after repeated preparation"})
+    if ok is False:
+        c.failures[-1]["replay"] = {"kind": "interface_reuse"}
+
+
 def rng_job(interp, c, case):
     seed, = case
     R = interp.load("bioscrape.random")
@@ -475,6 +502,7 @@ def check(tier):
     ck.add("interface-follows-model", "harness.C08", "follow_job",
            dict(cases=[(k_, r_, s_) for k_ in ("species", "params") for r_ in (False, True) for s_ in (False, True)]), fresh=True)
     ck.add("deterministic", "harness.C08", "rhs_job", dict(cases=[()]), fresh=True)
+    ck.add("interface-reuse", "harness.C08", "interface_reuse_job", dict(cases=[(False,), (True,)]), fresh=True)
     for seed in (5489, 1, 2 ** 63 + 12345) + ((42, 2 ** 64 - 1) if tier == "thorough" else ()):
         ck.add("rng/%d" % seed, "harness.C08", "rng_job", dict(cases=[(seed,)]), fresh=True, exact=True)
     for smp in ("uniform", "normal", "exponential", "erlang", "binomial", "rand_int"):       # gamma_rv: rejection loop over normal_rv / uniform_rv, not unrolled
